@@ -336,6 +336,9 @@ RL = "nostr_relay/rate_limiter.py"
 WEB = "nostr_relay/web.py"
 
 MUTANTS = [
+    M("c18-return-false-in-loop", "nostr_relay/rate_limiter.py", "                        if count == freq:\n                            self.log.debug(\"%d/%d\", freq, interval)\n                            return True\n",
+      "                        if count == freq:\n                            self.log.debug(\"%d/%d\", freq, interval)\n                            return True\n                    return False\n", "C18.allrules"),
+    M("c18-break-rule-loop", "nostr_relay/rate_limiter.py", "                for interval, freq in rules:\n                    count = 0\n", "                for interval, freq in rules:\n                    if interval < 60:\n                        break\n                    count = 0\n", "C18.allrules"),
     M("c18-dispatch-before-limit", WEB, "                if rate_limiter and rate_limiter.is_limited(remote_addr, message):\n                    if command == \"EVENT\":",
       "                if command == \"CLOSE\":\n                    await storage.unsubscribe(client_id, str(message[1]))\n                    continue\n                if rate_limiter and rate_limiter.is_limited(remote_addr, message):\n                    if command == \"EVENT\":", "C18.consulted", canary=True),
     M("c18-accept-unchecked", WEB, "            if self.rate_limiter and self.rate_limiter.is_limited(\n                req.remote_addr, [\"ACCEPT\"]\n            ):", "            if False:", "C18.consulted"),
